@@ -29,7 +29,7 @@ LEVEL_TEXT = ("Static ownership/effect analysis (who may mutate, construct or ca
               "and lookups are structural, which is exactly the canonical-and-stable claim modulo the trusted collections. This is the strongest case for static analysis in this repository: the argument is about all histories, "
               "which no test sequence can enumerate.")
 LEVEL_NOTE = "Trusted base: indexmap::IndexSet and baa::ValueInterner behave as documented; index wrap-around beyond 2^32-1 entries is excluded."
-TECHNIQUE = "who-may-access / who-may-call allow-list analysis, derive-provenance check, compile-fail privacy witnesses (thorough)"
+TECHNIQUE = "who-may-access / who-may-call allow-list analysis, derive-provenance check, key-completeness (dependency subset) rule for secondary tables, compile-fail privacy witnesses (thorough)"
 
 # operations on the interning tables that neither remove nor move entries
 ALLOWED = {
